@@ -7,8 +7,9 @@ package agreement
 // Schedule (deterministic, scripted): 3 nodes holding 2+2+1 equal accounts. Cert votes reach only node 2, which commits
 // V. Nodes 0 and 1 — a quorum of stake — each: crash, restart (restored from the crash DB), persistence loop completes
 // all pending writes, crash again, restart. Then node 2 is unreachable and the period-0 proposals between nodes 0 and 1
-// are lost, timeouts fire at their deadlines. With the fix the second restart must again restore the round-1 state
-// (cert vote for V remembered); nodes 0/1 must never commit anything but V. Engine A mirrors the *fixed* glue
+// and their period-0 cert votes are lost, timeouts fire at their deadlines. With the fix the second restart must again
+// restore the round-1 state (V staged and cert-voted): nodes 0/1 next-vote V, enter period 1 with V as starting value and
+// can only commit V. A node that forgot (empty router) next-votes bottom and commits a fresh period-1 proposal: fork. Engine A mirrors the *fixed* glue
 // (engaNode.start), so this guards the simulator's crash model and the protocol's use of the restored state; the
 // Service-level regression itself is Engine B's (C02).
 
@@ -19,7 +20,6 @@ import (
 	"testing"
 
 	"github.com/algorand/go-algorand/crypto"
-	"github.com/algorand/go-algorand/data/committee"
 	"github.com/algorand/go-algorand/protocol"
 )
 
@@ -109,7 +109,9 @@ func c01DoubleCrashScenario(t *testing.T, keySeed uint64) (res c01DCResult) {
 				return o.(compoundMessage).Proposal.OriginalPeriod == 0
 			}
 		}
-		if st, p, ok := c01VoteStep(m); ok && st == propose && p == 0 {
+		if st, p, ok := c01VoteStep(m); ok && (st == propose || st == cert) && p == 0 {
+			// the period-0 proposal-votes and the (re-sent) period-0 cert votes are lost as well: nodes 0/1 never see
+			// the cert threshold for V, so only what they restored keeps them from voting for anything else
 			return true
 		}
 		return false
@@ -125,13 +127,6 @@ func c01DoubleCrashScenario(t *testing.T, keySeed uint64) (res c01DCResult) {
 	// c01Observer has failed the test if anybody committed a second value for round 1
 	if os.Getenv("VERIF_DEBUG_DC") != "" {
 		os.WriteFile(os.Getenv("VERIF_DEBUG_DC"), []byte(strings.Join(s.trace, "\n")), 0o644)
-		for _, st := range []step{soft, cert, next, next + 1} {
-			for _, id := range s.ids {
-				m, _ := membership(s.ref, id.addr, 1, 0, st)
-				c, err := committee.MakeCredential(&id.vrf.SK, m.Selector).Verify(engaProto(), m)
-				fmt.Printf("DBG step %d id %d owner %d weight %d err %v\n", st, id.idx, id.owner, c.Weight, err != nil)
-			}
-		}
 		s.failf("debug dump")
 	}
 	res.Events = s.stats.events
